@@ -45,6 +45,7 @@ var mxSPS = []byte{
 func mxPPS(par int) []byte { return []byte{0x08, byte(par)} }
 
 type mxTrack struct {
+	bf    bool // H264 with frame reordering (muxer_bframes.go)
 	codec string
 	rate  int
 	sr    int
@@ -271,7 +272,7 @@ func (r *mxRunner) Step(line string) []string {
 		r.useDir = a["dir"] == "1"
 		return nil
 	case "track":
-		r.tracks = append(r.tracks, &mxTrack{codec: a["codec"], rate: int(atoi64(a["rate"])), sr: int(atoi64(a["sr"]))})
+		r.tracks = append(r.tracks, &mxTrack{codec: a["codec"], rate: int(atoi64(a["rate"])), sr: int(atoi64(a["sr"])), bf: a["bf"] == "1"})
 		return nil
 	case "begin":
 		return []string{r.begin()}
@@ -334,6 +335,9 @@ func (r *mxRunner) begin() string {
 		switch t.codec {
 		case "h264":
 			tr.Codec = &codecs.H264{SPS: mxSPS, PPS: mxPPS(1)}
+			if t.bf {
+				tr.Codec = &codecs.H264{SPS: bfSPS, PPS: mxPPS(1)}
+			}
 		case "aac":
 			tr.Codec = &codecs.MPEG4Audio{Config: mpeg4audio.Config{Type: 2, SampleRate: t.sr, ChannelCount: 2}}
 		case "opus":
@@ -459,6 +463,9 @@ func (r *mxRunner) write(a map[string]string) string {
 	switch t.codec {
 	case "h264":
 		au := mxBuildH264(par, ra, pic, int(pays[0]), fill)
+		if t.bf {
+			au = bfBuildAU(par, int(atoi64(a["bf"])), int(pays[0]))
+		}
 		err = r.m.WriteH264(t.track, ntp, pts, au)
 	case "aac":
 		var aus [][]byte
@@ -667,7 +674,13 @@ func (r *mxRunner) payOfNALUs(nalus [][]byte) int {
 			switch r.videoCodec() {
 			case "h264":
 				if t := n[0] & 0x1f; t == 5 || t == 1 {
-					return idOf(n[1:])
+					if id := idOf(n[1:]); id >= 0 {
+						return id
+					}
+					if len(n) >= 11 {
+						return idOf(n[6:]) // reordering pattern: 6 header bytes, then the id
+					}
+					return -1
 				}
 			}
 		}
